@@ -199,8 +199,22 @@ impl ExprReply {
                     if prec < Precedence::Mul {
                         literal!("(");
                     }
-                    for expr in exprs.iter() {
+                    for (i, expr) in exprs.iter().enumerate() {
+                        let signed = i > 0
+                            && matches!(
+                                *expr,
+                                Expr::UnaryOp(crate::ast::UnaryOpExpr {
+                                    op: UnaryOpType::Positive | UnaryOpType::Negative,
+                                    ..
+                                })
+                            );
+                        if signed {
+                            literal!("(");
+                        }
                         recurse(expr, parts, Precedence::Pow);
+                        if signed {
+                            literal!(")");
+                        }
                     }
                     if prec < Precedence::Mul {
                         literal!(")");
@@ -225,7 +239,12 @@ impl ExprReply {
                     }
                     recurse(&binop.left, parts, succ);
                     literal!(binop.op.symbol());
-                    recurse(&binop.right, parts, op_prec);
+                    let right_prec = if binop.op == crate::ast::BinOpType::Pow {
+                        op_prec
+                    } else {
+                        succ
+                    };
+                    recurse(&binop.right, parts, right_prec);
                     if prec < op_prec {
                         literal!(")");
                     }
@@ -258,7 +277,7 @@ impl ExprReply {
                         literal!("(");
                     }
                     let mut sub = vec![];
-                    recurse(expr, &mut sub, Precedence::Div);
+                    recurse(expr, &mut sub, Precedence::Mul);
                     parts.push(ExprParts::Property {
                         property: property.to_owned(),
                         subject: sub,
